@@ -9,6 +9,9 @@ import BumpProof.Spec.Bump
 import BumpProof.Spec.BumpValid
 import BumpProof.Lemmas.Align
 
+set_option linter.unusedSimpArgs false
+set_option linter.unusedVariables false
+
 namespace Lemmas
 open Gen.Bumping Rs C11
 
@@ -103,5 +106,142 @@ theorem upAlign_ge_of_overflow {x a : Nat} (ha : P2 a) (ha64 : a < 2 ^ 64) (hx :
     2 ^ 64 ≤ Spec.upAlign x a := by
   rw [upAlign_eq_downAlign]
   exact le_downAlign_of_dvd ha.pos (ha.dvd_two_pow_64 ha64) hx
+
+/-! ## Validity facts and `debug_assert_valid` -/
+
+theorem valid_P2_min {p : BumpProps} (h : ValidCommon p) : P2 p.min_align := by
+  rcases h.min_align with h | h | h | h | h <;> rw [h]
+  · exact ⟨0, rfl⟩
+  · exact ⟨1, rfl⟩
+  · exact ⟨2, rfl⟩
+  · exact ⟨3, rfl⟩
+  · exact ⟨4, rfl⟩
+
+theorem valid_min_le {p : BumpProps} (h : ValidCommon p) : p.min_align ≤ 16 := by
+  rcases h.min_align with h | h | h | h | h <;> omega
+
+theorem valid_P2_align {p : BumpProps} (h : ValidCommon p) : P2 p.layout.align := by
+  obtain ⟨⟨k, _, hk⟩, _⟩ := h.layout
+  exact ⟨k, hk⟩
+
+theorem valid_align_lt {p : BumpProps} (h : ValidCommon p) : p.layout.align < 2 ^ 64 := by
+  obtain ⟨⟨k, hk64, hk⟩, _⟩ := h.layout
+  rw [hk]
+  exact Nat.pow_lt_pow_right (by decide) hk64
+
+
+theorem add_ok' {a b : Nat} (h : a + b < 2 ^ 64) : Rs.add a b = .ok (a + b) :=
+  add_ok (by rw [MAX_eq]; omega)
+
+theorem assert_dec {P : Prop} {inst : Decidable P} (h : P) : Rs.assert (@decide P inst) = .ok () :=
+  assert_ok (decide_eq_true h)
+
+theorem assert_band {a x : Nat} {inst : Decidable (Rs.band x (a - 1) = 0)} (ha : P2 a) (h : a ∣ x) :
+    Rs.assert (@decide (Rs.band x (a - 1) = 0) inst) = .ok () :=
+  assert_dec (ha.band_mask_eq_zero h)
+
+theorem pure_eq_ok {α : Type} (x : α) : (pure x : Rs.M α) = .ok x := rfl
+
+macro "rs_disch" : tactic =>
+  `(tactic| first | assumption | omega | (apply Nat.mod_eq_zero_of_dvd; assumption))
+
+theorem mca : MIN_CHUNK_ALIGN = 16 := rfl
+
+theorem debug_assert_valid_eq {up : Bool} {p : BumpProps} (h : Valid up p) :
+    debug_assert_valid p up = .ok () := by
+  obtain ⟨hc, hr⟩ := h
+  have hm := valid_P2_min hc
+  have hm16 := valid_min_le hc
+  have ha := valid_P2_align hc
+  have h16 := P2.sixteen
+  have := hc.start_ne
+  have := hc.end_ne
+  have := hc.start_lt
+  have := hc.end_lt
+  have hap := ha.pos
+  unfold debug_assert_valid
+  rw [mca]
+  have hmod : p.size_is_multiple_of_align = true → p.layout.size % p.layout.align = 0 :=
+    fun h => Nat.mod_eq_zero_of_dvd (hc.truthful h)
+  by_cases hs : p.size_is_multiple_of_align = true
+  case' pos => have := hmod hs
+  all_goals
+    rcases hr with hr | hr
+    · obtain ⟨h1, h2, h3⟩ := hr
+      have h5 : ¬ (p.start > p.end) := by omega
+      cases up
+      · simp only [Bool.false_eq_true, ↓reduceIte] at h3
+        obtain ⟨h3, h4⟩ := h3
+        simp (disch := rs_disch) only [assert_dec, assert_ok hm.is_power_of_two, ok_bind,
+          assert_band, h5, decide_false, Bool.false_eq_true, ↓reduceIte, pure_eq_ok, hs, rem_ok]
+      · simp only [↓reduceIte] at h3
+        obtain ⟨h3, h4⟩ := h3
+        simp (disch := rs_disch) only [assert_dec, assert_ok hm.is_power_of_two, ok_bind,
+          assert_band, h5, decide_false, Bool.false_eq_true, ↓reduceIte, pure_eq_ok, hs, rem_ok]
+    · obtain ⟨h1, h2⟩ := hr
+      have h5 : p.start > p.end := by omega
+      have h6 : 16 ∣ p.start := by rw [h1]; exact (Nat.dvd_add_right h2).2 (Nat.dvd_refl 16)
+      simp (disch := rs_disch) only [assert_dec, assert_ok hm.is_power_of_two, ok_bind,
+          assert_band, h5, decide_true, ↓reduceIte, pure_eq_ok, add_ok', hs, rem_ok, Bool.false_eq_true]
+
+/-! ## Everything a proof needs from `Valid`, over plain variables -/
+
+theorem add_le_of_dvd_of_lt {a x y : Nat} (hx : a ∣ x) (hy : a ∣ y) (h : x < y) : x + a ≤ y := by
+  obtain ⟨c, rfl⟩ := hx
+  obtain ⟨d, rfl⟩ := hy
+  have hcd : c < d := Nat.lt_of_mul_lt_mul_left h
+  calc a * c + a = a * (c + 1) := (Nat.mul_succ a c).symm
+    _ ≤ a * d := Nat.mul_le_mul_left a hcd
+
+theorem as_isize_small' {a : Nat} (h : a < 2 ^ 63) : Rs.as_isize a = (a : Int) :=
+  as_isize_small (by rw [IMAX_eq]; omega)
+
+theorem remaining_regular' {s e : Nat} (hse : s ≤ e) (he : e < 2 ^ 64) (hcap : e - s < 2 ^ 63) :
+    Rs.as_isize (Rs.wrapping_sub e s) = ((e - s : Nat) : Int) :=
+  remaining_regular hse he (by rw [IMAX_eq]; omega)
+
+structure Facts (up : Bool) (s e m sz a : Nat) (smoa : Bool) : Prop where
+  hm : P2 m
+  hm16 : m ≤ 16
+  hm16d : m ∣ 16
+  ha : P2 a
+  ha64 : a < 2 ^ 64
+  hap : 0 < a
+  hmp : 0 < m
+  hs0 : 0 < s
+  he0 : 0 < e
+  hs64 : s < 2 ^ 64
+  he64 : e < 2 ^ 64
+  hsz : sz + (a - 1) < 2 ^ 63
+  htr : smoa = true → a ∣ sz
+  h16 : P2 16
+  hr : (s ≤ e ∧ e - s < 2 ^ 63 ∧ (if up then m ∣ s ∧ 16 ∣ e else 16 ∣ s ∧ m ∣ e)) ∨
+       (s = e + 16 ∧ 16 ∣ e ∧ 16 ∣ s)
+
+theorem Valid.facts {up : Bool} {p : BumpProps} (h : Valid up p) :
+    Facts up p.start p.«end» p.min_align p.layout.size p.layout.align p.size_is_multiple_of_align := by
+  obtain ⟨hc, hr⟩ := h
+  have hm := valid_P2_min hc
+  have ha := valid_P2_align hc
+  have hsz := hc.layout.2
+  rw [IMAX_eq] at hsz
+  refine ⟨hm, valid_min_le hc, hm.dvd_of_le P2.sixteen (valid_min_le hc), ha, valid_align_lt hc, ha.pos, hm.pos,
+    Nat.pos_of_ne_zero hc.start_ne, Nat.pos_of_ne_zero hc.end_ne, hc.start_lt, hc.end_lt, by omega,
+    hc.truthful, P2.sixteen, ?_⟩
+  rcases hr with ⟨h1, h2, h3⟩ | ⟨h1, h2⟩
+  · rw [IMAX_eq] at h2
+    exact Or.inl ⟨h1, by omega, h3⟩
+  · exact Or.inr ⟨h1, h2, by rw [h1]; exact (Nat.dvd_add_right h2).2 (Nat.dvd_refl 16)⟩
+
+/-! ## The simplification tactic used by the equivalence proofs -/
+
+theorem assert_p2 {a : Nat} (ha : P2 a) : Rs.assert (Rs.is_power_of_two a) = .ok () :=
+  assert_ok ha.is_power_of_two
+
+macro "rs_simp" : tactic =>
+  `(tactic| simp (disch := rs_disch) only [ok_bind, pure_eq_ok, assert_dec, assert_band, assert_p2, add_ok', sub_ok,
+      rem_ok, down_align_eq, up_align_unchecked_eq, as_isize_small', remaining_regular', remaining_dummy,
+      decide_true, decide_false, decide_eq_true_eq, ↓reduceIte, Bool.false_eq_true, Bool.and_true, Bool.and_false,
+      Bool.true_and, Bool.false_and])
 
 end Lemmas
